@@ -1,4 +1,5 @@
 import Netconan.Proofs.Secrets
+import Netconan.Proofs.Pseudonym
 /-!
 # C08 – Secret pseudonyms are consistent and collision-free within a run
 
@@ -81,6 +82,10 @@ theorem juniper_shares_plaintext_key (val2 d p : List Char) (lk : Lookup)
 /-- the clear text equal to that plaintext is answered with the very same pseudonym -/
 theorem cleartext_shares_plaintext_key (d p : List Char) (lk : Lookup) (hkey : lk.get d = some p) :
     anonCore x fs salt d lk = .ok (p, lk) := hit_returns_stored x fs salt d p lk hkey
+
+/-- **Collision-free numbering**: `netconanRemoved<N>` is injective in `N` (the decimal rendering can be read
+back), so secrets allocated at different table sizes get different base pseudonyms – for every `N`. -/
+theorem distinct_sizes_distinct_pseudonyms (a b : Nat) (h : pseudonym a = pseudonym b) : a = b := pseudonym_inj h
 
 /-- distinct table sizes give distinct base pseudonyms (kernel-checked for the first sizes;
 a test, not the unbounded claim, which needs injectivity of `decDigits`) -/
